@@ -5,5 +5,6 @@ CONSTANTS
   SourceBits = {0, 16, 17, 100, 335}
   FieldBits = {0, 9}
   EdBits = {0, 8, 9, 100, 300, 500, 700}
+  CtxAll = FALSE
 INVARIANTS Theorems
 CHECK_DEADLOCK FALSE
